@@ -148,6 +148,7 @@ type concRun struct {
 	Descr  []string
 	TrVals map[string]bool // values written through a transaction (never in the journal)
 	Stor   *harness.World
+	Faulted bool    // storage faults were armed during the window
 	Dur    []durRec // writes acknowledged with the sync option (or committed transactions)
 }
 
@@ -176,7 +177,7 @@ type reader interface {
 
 // runConc executes the driver once under the given choice prefix.
 func runConc(p *concParams, prefix []int, extra func(w *harness.World, cr *concRun)) (*vsched.Result, *concRun) {
-	cr := &concRun{}
+	cr := &concRun{Faulted: len(p.Faults) > 0}
 	vsched.WantWhere = p.Where
 	defer func() { vsched.WantWhere = false }()
 	var clock int64
